@@ -70,15 +70,26 @@ def main():
         sel = MUTANTS
     else:
         sel = [m for m in MUTANTS if m["name"] in names or any(m["name"].startswith(n) for n in names)]
-    out = []
+    # results are merged by mutant name into SENSITIVITY.json after every mutant
+    path = "/verif/SENSITIVITY.json"
+    try:
+        results = {r["name"]: r for r in json.load(open(path))}
+    except Exception:
+        results = {}
     for m in sel:
-        r = run_one(m, tests, tier)
+        try:
+            r = run_one(m, tests, tier)
+        except SystemExit as e:
+            print("SKIPPED", m["name"], e)
+            restore()
+            continue
         caught = any(c["exit"] == 1 and c["violation"] for c in r["checks"].values())
         r["caught"] = caught
-        print(("CAUGHT " if caught else "MISSED ") + m["name"], json.dumps(r["checks"]), "tests_pass=" + str(r.get("repo_tests_pass")))
-        out.append(r)
-    if args[0] == "all":
-        json.dump(out, open("/verif/SENSITIVITY.json", "w"), indent=1)
+        r["caught_by"] = sorted(k for k, c in r["checks"].items() if c["exit"] == 1 and c["violation"])
+        print(("CAUGHT " if caught else "MISSED ") + m["name"], json.dumps(r["checks"])[:600], "tests_pass=" + str(r.get("repo_tests_pass")), flush=True)
+        results[m["name"]] = r
+        order = [x["name"] for x in MUTANTS]
+        json.dump(sorted(results.values(), key=lambda r: order.index(r["name"]) if r["name"] in order else 9999), open(path, "w"), indent=1)
 
 
 main()
